@@ -91,7 +91,16 @@ func loadSrc(src string) (*loopSrc, error) {
 		out.files = files
 		return out, nil
 	case strings.HasPrefix(src, "fds:"):
-		fds, ok := decodeFDS(strings.TrimPrefix(src, "fds:"))
+		// fds:HEX[@pkg,pkg…]: the optional list restricts the image's (direct) packages; the other
+		// generated packages are reached through references only (APIFromImage marks them indirect)
+		hexPart, directList, restricted := strings.Cut(strings.TrimPrefix(src, "fds:"), "@")
+		direct := map[string]bool{}
+		if restricted {
+			for _, d := range strings.Split(directList, ",") {
+				direct[d] = true
+			}
+		}
+		fds, ok := decodeFDS(hexPart)
 		if !ok {
 			return nil, fmt.Errorf("bad fds")
 		}
@@ -105,6 +114,9 @@ func loadSrc(src string) (*loopSrc, error) {
 			p := string(g.Package())
 			if root, _, err := structure.SplitPackageParts(p); err == nil {
 				p = root
+			}
+			if restricted && !direct[p] {
+				continue
 			}
 			if !seenP[p] {
 				seenP[p] = true
@@ -137,11 +149,14 @@ func genLoopOp(h *vh.H, i int) string {
 	}
 	var src string
 	if w := loopWitnesses(); i < len(w) {
-		_, b, err := wireRoundTrip(w[i])
+		_, b, err := wireRoundTrip(w[i].fds)
 		if err != nil {
 			return ""
 		}
 		src = "fds:" + vh.Hex(b)
+		if w[i].direct != "" {
+			src += "@" + w[i].direct
+		}
 	} else if i%12 == 0 {
 		src = "repo:" + repoSources[(i/12)%len(repoSources)]
 	} else {
@@ -151,6 +166,14 @@ func genLoopOp(h *vh.H, i int) string {
 			return ""
 		}
 		src = "fds:" + vh.Hex(b)
+		// every third multi-package set: only the root package of the last file is a direct package
+		// of the image (files refer to earlier files only), so everything else — sub-packages
+		// included — is exported as part of an indirect package, as far as it is referenced
+		roots := rootPackages(fds)
+		if len(roots) > 1 && h.Chance(1, 3) {
+			src += "@" + roots[len(roots)-1]
+			h.Count("loop.gen.indirect-packages")
+		}
 	}
 	s1 := "nolink"
 	if ls, err := loadSrc(src); err == nil {
@@ -162,6 +185,23 @@ func genLoopOp(h *vh.H, i int) string {
 		}
 	}
 	return "loop " + mode + " " + src + " " + s1
+}
+
+// rootPackages: the root packages (x.v1 of x.v1.sub) of the generated files, in file order.
+func rootPackages(fds *descriptorpb.FileDescriptorSet) []string {
+	var out []string
+	seen := map[string]bool{}
+	for _, f := range fds.File {
+		p := f.GetPackage()
+		if root, _, err := structure.SplitPackageParts(p); err == nil {
+			p = root
+		}
+		if !seen[p] {
+			seen[p] = true
+			out = append(out, p)
+		}
+	}
+	return out
 }
 
 type flatEntry struct {
